@@ -1,0 +1,12 @@
+//! Verification hooks (cargo feature `verif_hooks`, off by default).
+//!
+//! `mpsc` is the channel implementation used by `parallel.rs`. It is std's, unless the crate is
+//! compiled by an external model-checking harness that passes `--cfg verif_shuttle` and provides the
+//! `shuttle` crate, in which case the channels are the scheduler-controlled ones.
+#![allow(unexpected_cfgs)]
+
+#[cfg(not(verif_shuttle))]
+pub use std::sync::mpsc;
+
+#[cfg(verif_shuttle)]
+pub use shuttle::sync::mpsc;
